@@ -248,6 +248,8 @@ def run_slots(shard, spec):
             addr = rng.choice([0x8000, 0x7FFE, 0xBFFD, 0xFFFD, 0xFFFE, 0xFFFF, 0x3FFE, 0x3FFF, 0x4000, 0x0000, rng.randrange(65536)])
             b = [x if x is not None else rng.choice([0, 1, 0x7F, 0x80, 0xFF, rng.randrange(256)]) for x in seq] + [rng.randrange(256) for _ in range(3)]
             regs = slot_state(rng, addr)
+            if b[0] == 0x76 and rng.random() < 0.5:
+                regs[28] = 1
             if regs[26] and (b[0] == 0x76 or (b[0] == 0xED and b[1] in (0x57, 0x5F))) and (regs[25] + 9) % 69888 < 48:
                 # the simulators model a pending frame interrupt inside HALT and LD A,I/R (P/V reset quirk of the NMOS
                 # Z80): that is interrupt behaviour, not instruction semantics - keep these away from the window
